@@ -88,6 +88,52 @@ def parse_dump(txt):
     return " ".join(tok(order[0])), removed
 
 
+def canon_full(txt):
+    """dump of a GNAT -> the structure string printed by the model driver (degree, pivot, radii, range table, data, children; removal cache)"""
+    nodes = {}; order = []
+    for m in NODE.finditer(txt):
+        deg, mn, mx, rmin, rmax, piv, data, this, ch = m.groups()
+        nodes[this] = dict(deg=deg, mn=mn, mx=mx, rmin=rmin.split(), rmax=rmax.split(), piv=piv, data=data.split(), ch=ch.split()); order.append(this)
+    def num(x): return "inf" if x in ("inf", "-inf") else str(int(float(x)))
+    def tok(this):
+        n = nodes[this]
+        t = ["N", n["deg"]] + n["piv"].split(",") + [num(n["mn"]), num(n["mx"]), str(len(n["rmin"]))]
+        for lo, hi in zip(n["rmin"], n["rmax"]): t += [num(lo), num(hi)]
+        t.append(str(len(n["data"])))
+        for dd in n["data"]: t += dd.split(",")
+        t.append(str(len(n["ch"])))
+        for c in n["ch"]: t += tok(c)
+        return t
+    removed = []
+    m = re.search(r"Elements marked for removal:\|([^|]*)\|", txt)
+    if m: removed = m.group(1).split()
+    body = " ".join(tok(order[0])) if order else "empty"
+    return body, sorted(" ".join(r.split(",")) for r in removed)
+
+
+def gen_struct_history(rng, i):
+    """histories without duplicate points (so that the element a removal finds is unique) in tape mode; a DUMP and SZ after every operation"""
+    p = PARAMS[i % len(PARAMS)]
+    lines = ["NEWT %d %d %d %d %d %d %d" % (p + (rng.randint(0, 63),))]
+    present = []; used = set()
+    def fresh():
+        while True:
+            q = (rng.randint(-12, 12), rng.randint(-12, 12)) if rng.random() < 0.8 else (rng.choice([0, 1000, -500]) + rng.randint(0, 5), rng.choice([0, 700]) + rng.randint(0, 5))
+            if q not in used: used.add(q); return q
+    for _ in range(rng.randint(5, 90)):
+        r = rng.random()
+        if r < 0.5 or not present: q = fresh(); lines.append("A %d %d" % q); present.append(q)
+        elif r < 0.6:
+            qs = [fresh() for _ in range(rng.randint(0, 14))]; lines.append("AL %d %s" % (len(qs), " ".join("%d %d" % q for q in qs))); present += qs
+        elif r < 0.93:
+            if rng.random() < 0.85: q = rng.choice(present); present.remove(q); used.discard(q)
+            else: q = (rng.randint(13, 40), rng.randint(13, 40))
+            lines.append("R %d %d" % q)
+        else: lines.append("C"); present = []; used = set()
+        lines += ["DUMP", "SZ"]
+    return lines
+
+
 def l1(a, b): return abs(a[0] - b[0]) + abs(a[1] - b[1])
 
 
@@ -243,6 +289,40 @@ def main():
                 nq_diff += 1; ndiff += 1
                 if first_diff is None or len(hs[hi]) < len(first_diff[0]): first_diff = (hs[hi], (j, "%s answered distances %s" % (NAMES[si], got[:10]), "search model on the dumped tree: %s" % r[:120]))
     c.cov.update({"gnat_search_model_queries": len(gq), "gnat_search_model_disagreements": nq_diff})
+    # ---- the whole structure: GnatFullModel (add / updateRange / updateRadius / split with k-centres / rebuild / removal cache)
+    #      driven through the same operations, the first k-centre of every split taken from the same tape (RNG hook):
+    #      node by node equal to the library's dump after every operation, for both GNAT variants
+    sh = [gen_struct_history(c.rng, i) for i in range(60 if quick else 1500)]
+    sflat = [l for h in sh for l in h]
+    rc5, o5, e5, s5 = vf.sh([drv], input="\n".join(sflat) + "\n", timeout=3000); c.step("correspond:impl-structure", drv + " (NEWT histories)", s5, rc5 == 0)
+    rc6, o6, e6, s6 = vf.sh([model, "gnatfull"], input="\n".join(sflat) + "\n", timeout=3000); c.step("correspond:model-structure", model + " gnatfull", s6, rc6 == 0)
+    io5, mo5 = o5.split("\n"), o6.split("\n")
+    nstruct = nstruct_bad = 0; k = 0
+    for h in sh:
+        last_model = None; bad = None
+        for j, ln in enumerate(h):
+            a = io5[k] if k < len(io5) else ""; b = mo5[k] if k < len(mo5) else ""; k += 1
+            w = ln.split()
+            if w[0] in ("A", "AL", "R", "C"):
+                last_model = b
+                if w[0] == "R":
+                    secs = [x.strip() for x in a.split(" # ")]
+                    if len(secs) == 4 and (secs[0] != b.split(" | ")[0] or secs[1] != b.split(" | ")[0]): bad = bad or (j, "remove answered %s / %s, model %s" % (secs[0], secs[1], b.split(" | ")[0]))
+            elif w[0] == "DUMP" and last_model is not None:
+                secs = [x.strip() for x in a.split(" # ")]
+                try: mbody, mrest = last_model.split(" | ", 1)[1].split(" R ", 1); mrem, msz = mrest.split(" SZ ")
+                except Exception: bad = bad or (j, "model produced no structure: " + last_model[:80]); continue
+                mrem = sorted(" ".join(x) for x in zip(mrem.split()[0::2], mrem.split()[1::2]))
+                for si in (0, 1):
+                    mm = re.search(r"<<<(.*)>>>", secs[si]) if len(secs) == 4 else None
+                    body, rem = canon_full(mm.group(1)) if mm else ("empty", [])
+                    nstruct += 1
+                    if body != mbody.strip() or rem != mrem:
+                        bad = bad or (j, "%s structure after '%s': %s | removed %s ; model: %s | removed %s" % (NAMES[si], h[j - 1], body[:200], rem, mbody.strip()[:200], mrem))
+        if bad:
+            nstruct_bad += 1; ndiff += 1
+            if first_diff is None or len(h) < len(first_diff[0]): first_diff = (h, (bad[0], bad[1][:400], "GnatFullModel"))
+    c.cov.update({"gnat_structures_compared": nstruct, "gnat_structure_disagreements": nstruct_bad})
     c.cov.update({"evaluations": len(flat), "traces_validated_against_impl": len(hs), "distinct_nontrivial": len(distinct), "trees_checked": len(trees),
                   "rule": "random histories (<=170 ops) of add / add(vector) / remove(present or absent) / clear / nearest / nearestK (k in {0,1,2,3,5,8,1000}) / nearestR (r in {0,1,2,4,10,1e5}) / list / size / dump over 9 tree parameterisations (incl. leaf size < degree, tiny removal caches, rebalancing) and 4 point distributions (7x7 lattice with heavy ties, 6 duplicate sites, far clusters, a line); non-trivial = distinct history with >= 2 removals and > 10 ops",
                   "op_histogram": dict(hist), "disagreements": ndiff, "predicate_failures": npred})
